@@ -114,6 +114,16 @@ theorem groupby_first (parts : List (List (Nat × Option Int))) (k : Nat) (hk : 
     treeReduce opFirst k fuel (parts.map (chunk opFirst id)) = chunk opFirst id parts.flatten :=
   groupby_agg_eq_global opFirst opFirst_assoc id parts k hk fuel
 
+/-! ### size / count -/
+
+/-- **size**: the tree reduction of the per-partition sizes (1 per row, merged by `+`) is the number of rows of the group in
+    the whole frame (`count` is the same with 0 for an NA cell) -/
+theorem groupby_size_eq_row_count (parts : List (List (Nat × V))) (k : Nat) (hk : 0 < k) (fuel key : Nat) :
+    treeReduce (fun a b : Int => a + b) k fuel (parts.map (chunk (fun a b : Int => a + b) (fun _ : V => some (1 : Int)))) key =
+      if (parts.flatten.filter fun r => r.1 == key).length = 0 then none
+      else some ((parts.flatten.filter fun r => r.1 == key).length : Int) := by
+  rw [groupby_agg_eq_global _ Int.add_assoc _ parts k hk fuel, chunk_size_is_count]
+
 /-! ### finalisers of mean / var / std -/
 
 /-- the `(Σ, n)` state of `mean` over the non-NA values `vs` of a group -/
@@ -239,6 +249,14 @@ theorem cumulative_eq_global (op : Int → Int → Int) (e : Int) (hassoc : ∀ 
     (hcomm : ∀ a b, op a b = op b a) (hid : ∀ a, op e a = a) (parts : List (List (Nat × Option Int))) :
     (cumDask op e parts).flatten = cumRaw op parts.flatten :=
   cumDask_eq_global op e hassoc hcomm hid parts
+
+/-- the `cum_last` the model carries is what `M.last` returns on the cumulative column: the last non-NA cumulative cell of
+    every group of the partition -/
+theorem cum_last_is_last_value (op : Int → Int → Int) (rows : List (Nat × Option Int)) (k : Nat) :
+    cumLast op rows k = cumLastLit op stEmpty rows k :=
+  cumLast_is_last op rows k
+
+example : cumLastLit (· + ·) stEmpty [(0, some 1), (1, some 2), (0, some 4), (0, none)] 0 = some 5 := by decide
 
 theorem cumsum_eq_global (parts : List (List (Nat × Option Int))) :
     (cumDask (· + ·) 0 parts).flatten = cumRaw (· + ·) parts.flatten :=
